@@ -92,6 +92,28 @@ func c12ScenarioTable() []c12Scenario {
 	add("RPC without (sebuf.http.config)", H, "ValidateMethodConfig", false,
 		methodArgs("", "", true, nil, fld("extra", "string")))
 
+	// ValidateService: a service is refused when ANY of its methods breaks a rule, wherever the method stands
+	svcArgs := func(badAt, n int) func() map[string]Val {
+		return func() map[string]Val {
+			var ms []*VStruct
+			for i := 0; i < n; i++ {
+				in := cMessage(fmt.Sprintf("Req%d", i), fld("zid", "string"))
+				in.Fields["@GetQueryParams"] = cQueryParams()
+				path := "/x/{zid}"
+				if i == badAt {
+					path = "/x/{nope}" // no field of that name
+				}
+				ms = append(ms, cMethod(fmt.Sprintf("M%d", i), in, cMessage("Resp"), map[string]Val{"@GetMethodHTTPConfig": cHTTPConfig(path, "POST")}))
+			}
+			return map[string]Val{"service": cService("Svc", ms...)}
+		}
+	}
+	add("service whose only method has a path variable without a field", H, "ValidateService", true, svcArgs(0, 1))
+	add("service of three methods, the FIRST has a path variable without a field", H, "ValidateService", true, svcArgs(0, 3))
+	add("service of three methods, the SECOND has a path variable without a field", H, "ValidateService", true, svcArgs(1, 3))
+	add("service of three methods, the LAST has a path variable without a field", H, "ValidateService", true, svcArgs(2, 3))
+	add("service of three valid methods", H, "ValidateService", false, svcArgs(-1, 3))
+
 	A := "internal/annotations"
 	discArgs := func(build func(m *VStruct) (*VStruct, []*cField), fields ...*cField) func() map[string]Val {
 		return func() map[string]Val {
